@@ -9,7 +9,12 @@ Sub-check `histories`: ONE object per configuration is used for every sequence o
 calls (shape x axis x dtype x in_place) up to a depth bound - explicit-state search with
 merging on the object's canonical form plus an un-merged enumeration on new objects - and
 every result is compared with a fresh object's and with the reference (a result may not
-depend on what the object was used for before).
+depend on what the object was used for before).  In the un-merged enumeration the calls of a
+sequence get DIFFERENT data (variant = position in the sequence) and every returned array is
+HELD to the end of the sequence: it must still be bit-identical to what it was when it was
+returned, no two results may share memory, and a result may share memory with an input only
+of its own in_place call (a result that aliases an internal buffer is overwritten by the next
+call on an equally shaped input).
 """
 import itertools
 
@@ -34,6 +39,9 @@ ASSUMPTIONS = [
     "(quick) / 3 (thorough; 2 for the Deltas configurations with a non-default window or padding) calls does "
     "not depend on that assumption; a result that is bit-identical to a fresh "
     "object's is accepted, otherwise the tolerance against the reference decides",
+    "histories, held results: call number i of an un-merged sequence gets data variant i (another generic "
+    "tensor of the same shape and dtype); numpy.shares_memory decides aliasing; apply(in_place=False) "
+    "'makes a copy' (PostProcessor.apply docstring), so its result may not share memory with any input",
 ]
 
 DTYPES = ("float64", "float32", "int32", "int16")
@@ -188,9 +196,16 @@ def _eval_deltas(pt, seed, tier):
         for window, mode, nds in combos:
             _, _, refkw = _mode(mode)
             orders = ref.delta_orders(x, max(nds), window, axis, _mode(mode)[0], **refkw)
+            # quick tier: how the blocks are laid out (concatenate x target_axis) does not depend on how
+            # they were computed (window x pad_mode), so only two (window, mode) pairs carry the full
+            # target_axis range; the others get the first, the last and the most negative position
+            full_layout = tier != "quick" or (window, mode) in ((2, "edge"), (1, "reflect"), (3, "reflect"))
             for nd in nds:
                 for concat in (True, False):
-                    for ta in _target_axes(ndim, concat):
+                    tas = _target_axes(ndim, concat)
+                    if not full_layout:
+                        tas = sorted(set([tas[0], 0, -1]))
+                    for ta in tas:
                         ips = (False, True) if ta == -1 else (False,)
                         for ip in ips:
                             v, o = _deltas_one(x, pristine, dtype, axis, window, mode, nd, concat,
@@ -737,7 +752,9 @@ def subchecks(tier, seed):
                       context_window=[1, 2, 3], pad_mode=list(modes), concatenate=[True, False],
                       target_axis="every valid value, negative too",
                       pruning="empty filtered axis: num_deltas=0 only; empty tensors and (quick) "
-                              "negative axis aliases: two (window, mode) pairs"),
+                              "negative axis aliases: two (window, mode) pairs; (quick) the full target_axis range "
+                              "with (window, mode) in {(2, edge), (1, reflect), (3, reflect)}, otherwise "
+                              "target_axis in {most negative, 0, -1}"),
             replay=lambda case: _replay_deltas(case, seed), chunk=1),
         core.SubCheck(
             "stack", spts, lambda p: _eval_stack(p, seed, tier),
@@ -755,7 +772,9 @@ def subchecks(tier, seed):
             "ONE Deltas / Stack object per configuration used for sequences of apply() calls over an "
             "alphabet shape x axis x dtype x in_place: (a) BFS with state merging on the object's "
             "canonical form to depth %d, (b) every sequence of %s calls on a new object without merging; "
-            "every result compared with a fresh object's (bit-identical, else with the reference model); "
+            "every result compared with a fresh object's (bit-identical, else with the reference model); in (b) "
+            "call i gets data variant i, every returned array is held to the end of the sequence and must be "
+            "unchanged then, share no memory with another result or (unless its own call was in_place) an input; "
             "non-trivial = a call that is not the first on its object" % (
                 (3, "2") if tier == "quick" else (4, "3 (2 for Deltas with non-default window/padding)")),
             axes=dict(deltas_config=dict(num_deltas=[1, 2], concatenate=[True, False], target_axis=[0, -1],
